@@ -176,6 +176,39 @@ func (sc *Scenario) Materialize(root string, resultDir string) ([]string, error)
 		}
 		args = append(args, "parameter="+pdir)
 	}
+	if len(sc.OwnFertRows) > 0 {
+		pdir := "parameter_" + p
+		if _, err := os.Lstat(filepath.Join(root, pdir)); err != nil {
+			if err := linkParamFolder(filepath.Join(root, pdir), nil); err != nil {
+				return nil, err
+			}
+		}
+		b, err := os.ReadFile(filepath.Join(paramDir, "FERTILIZ.TXT"))
+		if err != nil {
+			return nil, err
+		}
+		lines := strings.Split(strings.TrimRight(string(b), "\r\n"), "\n")
+		rowText := func(fr FertRow) string {
+			return fmt.Sprintf("%-4s %05.2f %04.2f %04.2f %04.2f %04.2f %04.2f kg N/ha project fertiliser", fr.Name, fr.Ntot, fr.Ndir, fr.Nfst, fr.Nslo, fr.NH4, fr.Loss)
+		}
+		out := []string{lines[0]}
+		for k, fr := range sc.OwnFertRows {
+			if sc.OwnFertFront[k] {
+				out = append(out, rowText(fr))
+			}
+		}
+		out = append(out, lines[1:]...)
+		for k, fr := range sc.OwnFertRows {
+			if !sc.OwnFertFront[k] {
+				out = append(out, rowText(fr))
+			}
+		}
+		os.Remove(filepath.Join(root, pdir, "FERTILIZ.TXT"))
+		if err := os.WriteFile(filepath.Join(root, pdir, "FERTILIZ.TXT"), []byte(strings.Join(out, "\n")+"\n"), 0644); err != nil {
+			return nil, err
+		}
+		args = append(args, "parameter="+pdir)
+	}
 	if len(sc.OwnNFunction) > 0 {
 		pdir := "parameter_" + p
 		if _, err := os.Lstat(filepath.Join(root, pdir)); err != nil {
